@@ -10,8 +10,10 @@ corpus : every stored record of every fixture through the inline record_decode c
 from __future__ import annotations
 
 import itertools
+import os
 import random
 import struct
+import warnings
 from datetime import datetime, timedelta
 
 ID = "C04"
@@ -85,7 +87,7 @@ def floors(tier):
             "counters": {"enc_cases": 32768, "dec_cases": 20_000 if tier == "quick" else 500_000, "corpus_records": 50_000,
                          "contract:record_roundtrip": 32768, "contract:record_decode": 100_000,
                          "dec_with_uninterpreted_before_interpreted": 1000,
-                         "enc_cases_with_a_zero_id": 3000, "dec_cases_with_a_zero_id": 5000, "dec_cases_with_long_coefficient": 3000, "dec_cases_with_coefficient_above_2_112": 500, "enc_cases_with_16_17_digit_payload": 500, "enc_cases_with_aware_datetime": 300}}
+                         "enc_cases_with_a_zero_id": 3000, "dec_cases_with_a_zero_id": 5000, "dec_cases_with_long_coefficient": 3000, "dec_cases_with_coefficient_above_2_112": 500, "enc_cases_with_16_17_digit_payload": 500, "enc_cases_with_aware_datetime": 300, "doc_cells_with_ids": 5000, "doc_empty_cells_with_ids": 500}}
 
 
 def plan(tier, seed):
@@ -105,6 +107,8 @@ def plan(tier, seed):
     n = 8
     for i in range(n):
         specs.append({"part": "corpus", "paths": paths[i::n], "seed": seed, "tier": tier})
+    for i in range(4 if tier == "quick" else 16):
+        specs.append({"part": "documents", "stream": i, "n": 25 if tier == "quick" else 400, "seed": seed, "tier": tier})
     return specs
 
 
@@ -352,6 +356,63 @@ def run_dec(spec, rec):
     rec.sample({"direction": "decode", "kind": kind, "flags": hex(sets[len(sets) // 2] | required)})
 
 
+def run_documents(spec, rec):
+    """The records as a whole document stores them: cells of every writable kind (and empty cells) are given random subsets
+    of the reference ids, the document is saved and reopened, and every id must be on the cell it was put on - the path
+    from a cell to its record and back includes the row encoder, which decides what gets a record at all."""
+    from numbers_parser import Document
+    from vf.gen import docs
+    rng = random.Random(f"C04-docs-{spec['seed']}-{spec['stream']}")
+    ids_of = [a for a in OPT if a != "_rich_id"]
+    vals = [1.5, "txt", datetime(2020, 1, 2, 3, 4, 5), True, timedelta(seconds=90), None, 0.0, ""]
+    for j in range(spec["n"]):
+        R, C = rng.randint(2, 30), len(vals)
+        case = {"part": "document", "seed": spec["seed"], "stream": spec["stream"], "j": j}
+        with warnings.catch_warnings():
+            warnings.simplefilter("ignore")
+            try:
+                doc = Document(num_rows=R, num_cols=C, num_header_rows=0, num_header_cols=0)
+                t = doc.sheets[0].tables[0]
+                want = {}
+                for r in range(R):
+                    for c in range(C):
+                        if vals[c] is not None:
+                            t.write(r, c, vals[c])
+                        cell = t.cell(r, c)
+                        ids = {}
+                        k = rng.random()
+                        for a in ids_of:
+                            if rng.random() < (0 if k < .2 else .15 if k < .6 else .5):
+                                ids[a] = rng.choice([0, 1, rng.randrange(1, 60), rng.randrange(1, 60)])
+                                setattr(cell, a, ids[a])
+                        want[(r, c)] = (type(cell).__name__, ids)
+            except Exception as e:  # noqa: BLE001
+                rec.build_failure(f"document with ids: {type(e).__name__}")
+                continue
+            path = os.path.join(docs.scratch_dir(), f"c04-doc-{spec['stream']}-{j}.numbers")
+            try:
+                doc.save(path)
+                t2 = Document(path).sheets[0].tables[0]
+            except Exception as e:  # noqa: BLE001
+                rec.violation("doc_roundtrip_raised", {"exc": type(e).__name__}, {"msg": str(e)[:200]}, case=case)
+                continue
+            finally:
+                if os.path.exists(path):
+                    os.remove(path)
+            for (r, c), (kind, ids) in want.items():
+                cell = t2.cell(r, c)
+                rec.count("doc_cells_with_ids" if ids else "doc_cells_without_ids")
+                if kind == "EmptyCell" and ids:
+                    rec.count("doc_empty_cells_with_ids")
+                for a in ids_of:
+                    if getattr(cell, a) != ids.get(a):
+                        rec.violation("doc_roundtrip_id", {"field": a[1:], "kind": kind, "stored_zero": ids.get(a) == 0, "lost": getattr(cell, a) is None},
+                                      {"pos": [r, c], "want": ids.get(a), "got": getattr(cell, a), "ids": ids}, case=case)
+                        break
+        rec.case(("document", spec["stream"], j), nontrivial=True)
+    rec.sample({"documents_with_ids": spec["n"], "stream": spec["stream"]})
+
+
 def run_corpus(spec, rec):
     from vf import corpus
     from vf.ref import cellrec
@@ -396,7 +457,7 @@ def run_shard(spec, rec):
         for c in spec["cases"]:
             replay(c, rec)
         return
-    {"enc": run_enc, "dec": run_dec, "corpus": run_corpus}[spec["part"]](spec, rec)
+    {"enc": run_enc, "dec": run_dec, "corpus": run_corpus, "documents": run_documents}[spec["part"]](spec, rec)
 
 
 def replay(case, rec):
@@ -415,5 +476,8 @@ def replay(case, rec):
         np_ = flags & sum(NONPAYLOAD_BITS)
         extra = flags & 0x1F & ~PAYLOAD_BIT[kind]
         dec_case(kind, np_, extra, case["salt"], rec, stub, rng)
+    elif case["part"] == "document":
+        # the j-th document of its stream, rebuilt by running the stream up to it
+        run_documents({"seed": case["seed"], "stream": case["stream"], "n": case["j"] + 1}, rec)
     else:
         run_corpus({"paths": [case["path"]]}, rec)
